@@ -195,13 +195,27 @@ Stop(c) ==
                       /\ reply' = Reply("Stop", c, FALSE, <<>>, d.upd, <<>>)
                       /\ UNCHANGED <<pods, residue>>
 
+\* RemoveContainer: a container that is still created/running in the cache (it was never stopped: the runtime removes
+\* a never-started container without a StopContainer event) is released first; the request has no reply that could
+\* carry updates, so what the release changed for others is pushed through the stub
 Remove(c) ==
-    /\ ctrs' = [x \in Cached \ {c} |-> ctrs[x]]
-    /\ req' = [x \in DOMAIN req \ {c} |-> req[x]]
-    /\ rtlive' = rtlive \ {c}
-    /\ rt' = [x \in DOMAIN rt \ {c} |-> rt[x]]        \* the runtime forgets the container
-    /\ reply' = Reply("Remove", c, FALSE, <<>>, <<>>, <<>>)
-    /\ UNCHANGED <<pods, pend, residue>>              \* the cache's pending mark is not cleared by deletion
+    IF c \in Cached /\ ctrs[c].st \in {"created", "running"}
+    THEN \E ws \in WriteSeqs(Targets(c) \ {c}) :
+           LET st1 == ApplyWrites(St, ws)
+               d   == Drain([st1 EXCEPT !.req[c] = NoReq, !.pend = @ \ {c}], None)
+           IN /\ ctrs' = [x \in Cached \ {c} |-> d.st.ctrs[x]]
+              /\ req' = [x \in DOMAIN req \ {c} |-> d.st.req[x]]
+              /\ pend' = d.st.pend
+              /\ rtlive' = rtlive \ {c}
+              /\ rt' = FoldUpd([x \in DOMAIN rt \ {c} |-> rt[x]], d.upd)
+              /\ reply' = Reply("Remove", c, FALSE, <<>>, <<>>, d.upd)
+              /\ UNCHANGED <<pods, residue>>
+    ELSE /\ ctrs' = [x \in Cached \ {c} |-> ctrs[x]]
+         /\ req' = [x \in DOMAIN req \ {c} |-> req[x]]
+         /\ rtlive' = rtlive \ {c}
+         /\ rt' = [x \in DOMAIN rt \ {c} |-> rt[x]]        \* the runtime forgets the container
+         /\ reply' = Reply("Remove", c, FALSE, <<>>, <<>>, <<>>)
+         /\ UNCHANGED <<pods, pend, residue>>              \* the cache's pending mark is not cleared by deletion
 
 \* Synchronize(P, C): C maps the runtime's containers to "created" | "running" | "stopped"
 Sync(P, C) ==
@@ -254,7 +268,7 @@ EnvOK(ev, c) ==
     ~ConsistentEnv \/
     CASE ev = "Create" -> c \notin rtlive /\ c \notin Cached /\ PodOf[c] \in pods
       [] ev \in {"Start", "Update", "Stop"} -> c \in rtlive
-      [] ev = "Remove" -> c \notin rtlive
+      [] ev = "Remove" -> c \notin rtlive \/ (c \in Cached /\ ctrs[c].st = "created")
       [] OTHER -> TRUE
 
 \* a consistent runtime stops the containers of a pod (StopContainer) before it stops or removes the pod
